@@ -66,6 +66,7 @@ def bfs_real(ad, insts, pad_steps=2, max_depth=None):
         hist = [[] for _ in range(n)]
         masks = [[mask_list(td["action_mask"][r])] for r in range(n)]
         dones = [[bool(done_of(td)[r])] for r in range(n)]
+        sts = [[ad.project(td, r, group[r])] for r in range(n)]
         depth = 0
         cap = max_depth or max(ad.step_cap(i) for i in group)
         while len(row_inst) > 0:
@@ -116,11 +117,12 @@ def bfs_real(ad, insts, pad_steps=2, max_depth=None):
                 for k, r in enumerate(term):
                     episodes.append({"inst": group[row_inst[r]], "a": hist[r], "mask": masks[r],
                                      "done": dones[r], "reward": sc[k][0], "checker": sc[k][1],
-                                     "pad": pad[k], "end": "done"})
+                                     "pad": pad[k], "end": "done", "st": sts[r],
+                                     "fin": ad.final(td_t, k, group[row_inst[r]])})
             for r in dead:
                 episodes.append({"inst": group[row_inst[r]], "a": hist[r], "mask": masks[r],
                                  "done": dones[r], "reward": None, "checker": "none",
-                                 "pad": {"a": [], "mask": [], "done": []},
+                                 "pad": {"a": [], "mask": [], "done": []}, "st": sts[r], "fin": {},
                                  "end": "cap" if depth >= cap else "deadend"})
             if depth >= cap:
                 break
@@ -136,7 +138,7 @@ def bfs_real(ad, insts, pad_steps=2, max_depth=None):
             td_n.set("action", pairs[:, 1].clone())
             td_n = env.step(td_n)["next"]
             dn2 = done_of(td_n)
-            new_inst, new_hist, new_masks, new_dones = [], [], [], []
+            new_inst, new_hist, new_masks, new_dones, new_sts = [], [], [], [], []
             srcl = src.tolist()
             al = pairs[:, 1].tolist()
             for k in range(len(srcl)):
@@ -145,7 +147,8 @@ def bfs_real(ad, insts, pad_steps=2, max_depth=None):
                 new_hist.append(hist[r] + [al[k]])
                 new_masks.append(masks[r] + [mask_list(td_n["action_mask"][k])])
                 new_dones.append(dones[r] + [bool(dn2[k])])
-            row_inst, hist, masks, dones, td = new_inst, new_hist, new_masks, new_dones, td_n
+                new_sts.append(sts[r] + [ad.project(td_n, k, group[row_inst[r]])])
+            row_inst, hist, masks, dones, sts, td = new_inst, new_hist, new_masks, new_dones, new_sts, td_n
             depth += 1
     return episodes
 
@@ -215,3 +218,42 @@ def check_real(ad, items):
             out.append((k, v))
     out.sort()
     return [v for _, v in out]
+
+
+def run_rows(ad, rows, extra_pad=1):
+    """Step a batch whose row r is (inst, seq) along its own mask-confined sequence.
+    Rows that exhausted their sequence (they are finished) are stepped with a
+    mask-admitted padding action while slower rows are still running.
+    Returns per row: masks, dones (index 0 = after reset), padded actions, reward."""
+    insts = [r[0] for r in rows]
+    seqs = [list(r[1]) for r in rows]
+    env = ad.make_env(insts[0])
+    td = env.reset(ad.to_td(insts))
+    n = len(rows)
+    T = max(len(s) for s in seqs) + extra_pad
+    masks = [[mask_list(td["action_mask"][r])] for r in range(n)]
+    dones = [[bool(done_of(td)[r])] for r in range(n)]
+    played = [[] for _ in range(n)]
+    stuck = [False] * n
+    for t in range(T):
+        am = td["action_mask"]
+        pad = ad.pad_choice(am)
+        a = []
+        for r in range(n):
+            if t < len(seqs[r]):
+                a.append(seqs[r][t])
+            else:
+                if not bool(am[r].any()):
+                    stuck[r] = True
+                a.append(int(pad[r]))
+        a = torch.tensor(a, dtype=torch.long)
+        td.set("action", a)
+        td = env.step(td)["next"]
+        dn = done_of(td)
+        for r in range(n):
+            played[r].append(int(a[r]))
+            masks[r].append(mask_list(td["action_mask"][r]))
+            dones[r].append(bool(dn[r]))
+    sc = score(ad, env, td, played, [ad.scale(i) for i in insts])
+    return [{"mask": masks[r], "done": dones[r], "played": played[r], "reward": sc[r][0],
+             "checker": sc[r][1], "stuck": stuck[r], "size": n, "pos": r} for r in range(n)]
